@@ -163,17 +163,37 @@ func c02Cases(tier string) []c02Case {
 			r.StructuredContent = map[string]interface{}{"a": []interface{}{1, "x", map[string]interface{}{"b": nil}}, "c": true}
 			return r
 		}},
-		{"structured=2^53", func() *mcp.CallToolResult { r := base(); r.StructuredContent = map[string]interface{}{"n": int64(9007199254740992), "m": int64(-9007199254740992)}; return r }},
-		{"structured=1.5", func() *mcp.CallToolResult { r := base(); r.StructuredContent = map[string]interface{}{"f": 1.5, "e": 1e21, "z": -0.0}; return r }},
-		{"structured=u2028", func() *mcp.CallToolResult { r := base(); r.StructuredContent = map[string]interface{}{"s": "a b\n"}; return r }},
+		{"structured=2^53", func() *mcp.CallToolResult {
+			r := base()
+			r.StructuredContent = map[string]interface{}{"n": int64(9007199254740992), "m": int64(-9007199254740992)}
+			return r
+		}},
+		{"structured=1.5", func() *mcp.CallToolResult {
+			r := base()
+			r.StructuredContent = map[string]interface{}{"f": 1.5, "e": 1e21, "z": -0.0}
+			return r
+		}},
+		{"structured=u2028", func() *mcp.CallToolResult {
+			r := base()
+			r.StructuredContent = map[string]interface{}{"s": "a b\n"}
+			return r
+		}},
 		{"structured=typed-struct", func() *mcp.CallToolResult { r := base(); r.StructuredContent = typed{A: 7, B: []string{"x"}}; return r }},
 		{"structured=protocol-keys", func() *mcp.CallToolResult {
 			r := base()
 			r.StructuredContent = map[string]interface{}{"error": map[string]interface{}{"code": 1, "message": "m"}, "result": "r", "id": 99, "jsonrpc": "1.0", "method": "m", "params": []interface{}{}, "content": "c", "isError": true}
 			return r
 		}},
-		{"structured=error-key-only", func() *mcp.CallToolResult { r := base(); r.StructuredContent = map[string]interface{}{"error": nil}; return r }},
-		{"meta-protocol-keys", func() *mcp.CallToolResult { r := base(); r.Meta = map[string]interface{}{"error": "e", "result": 1, "id": "x"}; return r }},
+		{"structured=error-key-only", func() *mcp.CallToolResult {
+			r := base()
+			r.StructuredContent = map[string]interface{}{"error": nil}
+			return r
+		}},
+		{"meta-protocol-keys", func() *mcp.CallToolResult {
+			r := base()
+			r.Meta = map[string]interface{}{"error": "e", "result": 1, "id": "x"}
+			return r
+		}},
 		{"meta", func() *mcp.CallToolResult { r := base(); r.Meta = map[string]interface{}{"k": "v", "n": 1}; return r }},
 		{"annotations", func() *mcp.CallToolResult { r := base(); r.Content[0] = prio(r.Content[0]); return r }},
 		{"nil-content-slice", func() *mcp.CallToolResult { return &mcp.CallToolResult{} }},
@@ -280,7 +300,9 @@ func c02Cases(tier string) []c02Case {
 		{"annotations-empty", func() *mcp.Tool { return mcp.NewTool("d1", mcp.WithToolAnnotations(&mcp.ToolAnnotations{})) }},
 		{"input-struct", func() *mcp.Tool { return mcp.NewTool("d1", mcp.WithInputStruct[c02In]()) }},
 		{"input-struct-refs", func() *mcp.Tool { return mcp.NewTool("d1", mcp.WithInputStruct[c02In](mcp.WithRefStyle())) }},
-		{"output-struct", func() *mcp.Tool { return mcp.NewTool("d1", mcp.WithInputStruct[c02In](), mcp.WithOutputStruct[c02Out]()) }},
+		{"output-struct", func() *mcp.Tool {
+			return mcp.NewTool("d1", mcp.WithInputStruct[c02In](), mcp.WithOutputStruct[c02Out]())
+		}},
 		{"output-struct-inline", func() *mcp.Tool {
 			return mcp.NewTool("d1", mcp.WithOutputStruct[c02Out](mcp.WithInlineStyle()))
 		}},
@@ -386,7 +408,9 @@ func c02Eval(mode string, cs c02Case) CaseResult {
 		case "tooldesc":
 			t := cs.TDesc()
 			want = hx.CanonOf(t)
-			r.RegisterTool(t, func(ctx context.Context, req *mcp.CallToolRequest) (*mcp.CallToolResult, error) { return mcp.NewTextResult("x"), nil })
+			r.RegisterTool(t, func(ctx context.Context, req *mcp.CallToolRequest) (*mcp.CallToolResult, error) {
+				return mcp.NewTextResult("x"), nil
+			})
 		case "promptdesc":
 			p := cs.PDesc()
 			want = hx.CanonOf(p)
